@@ -8,6 +8,7 @@
  * write(-1,"VERIF:BEGIN",11) / write(-1,"VERIF:END",9).
  *   --fail K:E      call K is not executed; it returns -E
  *   --failafter K:E call K IS executed (e.g. close really releases the descriptor, as on Linux); its result is replaced by -E
+ *   --failfrom K:E  call K and EVERY later call of the same system call fail with -E (a persistent condition: catches retry-until-success loops)
  *   --retzero K     call K is not executed; it returns 0 (EOF for read)
  *   --short K:N     call K (read/write/sendto/...) has its length argument replaced by N
  *   --kill K:entry  SIGKILL immediately before call K executes;  K:exit immediately after it returned
@@ -79,7 +80,7 @@ static void on_alarm(int s) { (void)s; alarmed = 1; }
 
 #define MAXF 8
 int main(int argc, char **argv) {
-    const char *outp = NULL; int whole = 0; long failk[MAXF], faile[MAXF]; int nfail = 0; long shortk = -1, shortn = 0, killk = -1, retzero = -1, fak = -1, fae = 0, expectnr = -1; int skipalloc = 0, diverged = 0; int kill_at_exit = 0;
+    const char *outp = NULL; int whole = 0; long failk[MAXF], faile[MAXF]; int nfail = 0; long shortk = -1, shortn = 0, killk = -1, retzero = -1, fak = -1, fae = 0, expectnr = -1, ffk = -1, ffe = 0, ffnr = -1; int skipalloc = 0, diverged = 0; int kill_at_exit = 0;
     long calltimeout = 3000, totaltimeout = 20000, maxcalls = 20000, maxrec = 3000; int ai = 1; int runaway = 0;
     for (; ai < argc; ai++) {
         if (!strcmp(argv[ai], "--")) { ai++; break; }
@@ -87,6 +88,7 @@ int main(int argc, char **argv) {
         else if (!strcmp(argv[ai], "--whole")) whole = 1;
         else if (!strcmp(argv[ai], "--fail")) { sscanf(argv[++ai], "%ld:%ld", &failk[nfail], &faile[nfail]); nfail++; }
         else if (!strcmp(argv[ai], "--failafter")) { sscanf(argv[++ai], "%ld:%ld", &fak, &fae); }
+        else if (!strcmp(argv[ai], "--failfrom")) { sscanf(argv[++ai], "%ld:%ld", &ffk, &ffe); }
         else if (!strcmp(argv[ai], "--retzero")) retzero = atol(argv[++ai]);
         else if (!strcmp(argv[ai], "--short")) sscanf(argv[++ai], "%ld:%ld", &shortk, &shortn);
         else if (!strcmp(argv[ai], "--kill")) { char w[16] = ""; sscanf(argv[++ai], "%ld:%15s", &killk, w); kill_at_exit = !strcmp(w, "exit"); }
@@ -150,8 +152,10 @@ int main(int argc, char **argv) {
                 long cnt = (long)regs.rdx; if (cnt > 0 && cnt <= 64) { struct iovec iv[64]; peek(pid, regs.rsi, iv, cnt * sizeof iv[0]); size_t tot = 0; for (long q = 0; q < cnt; q++) tot += iv[q].iov_len;
                     if (tot <= (4u << 20)) { unsigned char *b = malloc(tot + 1); size_t o = 0; for (long q = 0; q < cnt; q++) { ssize_t g = peek(pid, (unsigned long)iv[q].iov_base, b + o, iv[q].iov_len); if (g > 0) o += g; }
                         fprintf(out, ",\"buf_len\":%zu,\"buf_fnv\":\"%016llx\",\"iovcnt\":%ld", tot, (unsigned long long)fnv(b, o), cnt); if (o && b[o - 1] == '\n') fprintf(out, ",\"buf_ends_nl\":1"); free(b); } } }
-            if (expectnr >= 0 && ((nfail && idx == failk[0]) || idx == retzero || idx == shortk || idx == fak) && cur_nr != expectnr) { diverged = 1; fprintf(out, ",\"diverged_expected_nr\":%ld}", expectnr); kill(pid, SIGKILL); waitpid(pid, &st, 0); killed_by_us = 1; counted = 0; break; }
+            if (expectnr >= 0 && ((nfail && idx == failk[0]) || idx == retzero || idx == shortk || idx == fak || idx == ffk) && cur_nr != expectnr) { diverged = 1; fprintf(out, ",\"diverged_expected_nr\":%ld}", expectnr); kill(pid, SIGKILL); waitpid(pid, &st, 0); killed_by_us = 1; counted = 0; break; }
             for (int f = 0; f < nfail; f++) if (idx == failk[f]) { regs.orig_rax = (unsigned long long)-1; ptrace(PTRACE_SETREGS, pid, 0, &regs); pend = 1; pend_ret = -faile[f]; fprintf(out, ",\"injected\":%ld", -faile[f]); }
+            if (ffk >= 0 && idx == ffk) ffnr = cur_nr;
+            if (ffnr >= 0 && idx >= ffk && cur_nr == ffnr) { regs.orig_rax = (unsigned long long)-1; ptrace(PTRACE_SETREGS, pid, 0, &regs); pend = 1; pend_ret = -ffe; fprintf(out, ",\"injected\":%ld", -ffe); }
             if (idx == retzero) { regs.orig_rax = (unsigned long long)-1; ptrace(PTRACE_SETREGS, pid, 0, &regs); pend = 1; pend_ret = 0; fprintf(out, ",\"injected\":0"); }
             if (idx == shortk) { regs.rdx = (unsigned long long)shortn; ptrace(PTRACE_SETREGS, pid, 0, &regs); fprintf(out, ",\"shortened\":%ld", shortn); }
             if (idx == killk && !kill_at_exit) { fprintf(out, ",\"killed\":\"entry\"}"); kill(pid, SIGKILL); waitpid(pid, &st, 0); killed_by_us = 1; counted = 0; break; }
